@@ -186,7 +186,9 @@ impl PanicInfo {
         if let Some(i) = m.find(':') {
             m.truncate(i);
         }
-        format!("{} @ {}", m, self.location)
+        // file without the line number: stable under unrelated edits of the same file
+        let file = self.location.rsplit_once(':').map(|(f, _)| f).unwrap_or(&self.location);
+        format!("{} @ {}", m, file)
     }
 }
 
